@@ -219,6 +219,11 @@ func cmdCancelRun(args []string) error {
 			stats["runs"]++
 			stats["shape:"+shape]++
 			for _, f := range tr.frames {
+				// the model evaluator counts program counters in unary: keep its work bounded (the oracle below still applies)
+				tooBig := len(f.code) > 16384 && len(f.pcs) > 64 || len(f.pcs) > 4000
+				if tooBig {
+					stats["frames-too-large-for-the-model-evaluator"]++
+				}
 				cs := cnCase{Idx: len(cases), Run: run, Fork: fork, Shape: shape, Total: total, CancelAt: k, Frame: f.no, Depth: f.dep, CodeLen: len(f.code), After: len(f.pcs)}
 				cs.LastOp = vm.OpCode(f.ops[len(f.ops)-1]).String()
 				if len(f.pcs) <= 64 {
@@ -237,9 +242,14 @@ func cmdCancelRun(args []string) error {
 				if len(f.pcs) > len(f.code)+1 {
 					cs.Oracle = append(cs.Oracle, fmt.Sprintf("C17: frame %d executed %d instructions after Cancel, its code has %d bytes", f.no, len(f.pcs), len(f.code)))
 				}
-				l := items.New("CN").B(f.code).Open()
-				for _, p := range f.pcs {
-					l.N(p)
+				l := items.New("CN")
+				if tooBig {
+					l.B(nil).Open()
+				} else {
+					l.B(f.code).Open()
+					for _, p := range f.pcs {
+						l.N(p)
+					}
 				}
 				l.Close()
 				sb = append(sb, l.String())
